@@ -209,12 +209,12 @@ def wf_problems(f, unlimited_expected=None):
     return probs
 
 
-def twin_space(rec=None, extra_stubs=None):
+def twin_space(rec=None, extra_stubs=None, objfloat=False):
     stubs = {}
     if rec is not None:
         stubs['PseudoNetCDF.pncwarn'] = warn_stub(rec)
     stubs.update(extra_stubs or {})
-    sp = loader.TwinSpace(stubs=stubs)
+    sp = loader.TwinSpace(stubs=stubs, objfloat=objfloat)
     return sp
 
 
@@ -223,11 +223,12 @@ class SpaceMixin(object):
     library modules used here hold no mutable module state)"""
     _space = None
     twin_modules = ('PseudoNetCDF.core._files',)
+    objfloat = False    # np.zeros(..., float) allocates object arrays
 
     def space(self):
         if self._space is None:
             self._wr = WarnRec()
-            self._space = twin_space(self._wr)
+            self._space = twin_space(self._wr, objfloat=self.objfloat)
             for m in self.twin_modules:
                 self._space.twin(m)
         return self._space
